@@ -1,5 +1,5 @@
 (* Proofs about the model of strip_ignored_characters (Lang/Strip.v). *)
-From GV Require Import Base.Prelude Lang.Lexer Lang.LexerProps Lang.BlockString Lang.BlockStringProps Lang.Strip.
+From GV Require Import Base.Prelude Lang.Lexer Lang.LexerProps Lang.LexerLoc Lang.BlockString Lang.BlockStringProps Lang.Strip.
 
 (* ---- rejected sources stay rejected, at the same position; accepted sources are stripped ---- *)
 Lemma strip_loop_lex fuel : forall body cu s last,
@@ -334,20 +334,21 @@ Proof.
     cbn [length]. f_equal. f_equal. f_equal. lia. }
   destruct (c =? 92) eqn:Eb.
   { destruct (read_escape pos (c :: t)) as [[w size]| | |] eqn:Ee; try discriminate.
-    pose proof (read_escape_size _ _ _ _ ltac:(discriminate) Ee) as Hsz.
+    pose proof (read_escape_size pos (c :: t) w size ltac:(discriminate) Ee) as Hsz.
     apply IH in H as (a' & Es & -> & L).
+    assert (Hlen : length (firstn size (c :: t)) = size) by (rewrite firstn_length, Nat.min_l; lia).
     exists (firstn size (c :: t) ++ a'). split.
     { rewrite <- app_assoc, <- Es. symmetry. apply firstn_skipn. }
-    split; [rewrite app_length, firstn_length, Nat.min_l by lia; lia|].
+    split; [rewrite app_length, Hlen; lia|].
     intros fuel2 pos2 r2 Hf. destruct fuel2 as [|f2]; [lia|].
-    rewrite app_length, firstn_length, Nat.min_l in * by lia. rewrite <- app_assoc.
+    rewrite !app_length, Hlen in Hf. rewrite app_length, Hlen. rewrite <- app_assoc.
     assert (Ehd : firstn size (c :: t) ++ a' ++ r2 = c :: (firstn (size - 1) t ++ a' ++ r2)).
-    { destruct size as [|k]; [lia|]. cbn [firstn app]. rewrite Nat.sub_0_r. reflexivity. }
+    { destruct size as [|k]; [lia|]. replace (S k - 1)%nat with k by lia. reflexivity. }
     rewrite Ehd. cbn [read_string_loop]. rewrite Eq, Eb. rewrite <- Ehd.
-    rewrite (read_escape_loc _ _ _ _ ltac:(discriminate) Ee pos2 (a' ++ r2)).
+    rewrite (read_escape_loc pos (c :: t) w size ltac:(discriminate) Ee pos2 (a' ++ r2)).
     rewrite firstn_skipn_app by lia. rewrite L.
     - f_equal. f_equal. f_equal. lia.
-    - rewrite !app_length in *. lia. }
+    - rewrite app_length. lia. }
   destruct ((c =? LF) || (c =? CR)) eqn:Elt; [discriminate|].
   destruct (is_scalar c) eqn:Esc.
   { apply IH in H as (a' & -> & -> & L). exists (c :: a'). split; [reflexivity|]. split; [cbn; lia|].
@@ -359,4 +360,330 @@ Proof.
   intros fuel2 pos2 r2 Hf. destruct fuel2 as [|f2]; [lia|]. cbn [app read_string_loop].
   rewrite Eq, Eb, Elt, Esc. cbn [peek_is] in Ep |- *. rewrite Ep. cbn [hd tl].
   rewrite L by (cbn [app length] in Hf; lia). cbn [length]. f_equal. f_equal. f_equal. lia.
+Qed.
+
+(* ================================================================== *)
+(* D. character classes                                                *)
+(* ================================================================== *)
+
+Definition punct_chars : list N := [33; 36; 38; 40; 41; 58; 61; 64; 91; 93; 123; 124; 125].
+
+Lemma punct_kind_some c k : punct_kind c = Some k ->
+  In c punct_chars /\ is_punct_kind k = true /\ (k =? K_SPREAD) = false /\ (k =? K_EOF) = false /\
+  (k =? K_COMMENT) = false /\ (k =? K_BLOCK_STRING) = false.
+Proof.
+  unfold punct_kind.
+  repeat (match goal with |- context [if ?c =? ?v then _ else _] =>
+            destruct (N.eqb_spec c v) as [->|];
+            [intros H; inversion H; subst k; cbn [In punct_chars]; repeat split; tauto|] end).
+  discriminate.
+Qed.
+
+Lemma punct_kind_none c : ~ In c punct_chars -> punct_kind c = None.
+Proof.
+  unfold punct_kind, punct_chars. cbn [In]. intros H.
+  repeat (match goal with |- context [if ?c =? ?v then _ else _] =>
+            destruct (N.eqb_spec c v) as [E|]; [exfalso; apply H; rewrite E; tauto|] end).
+  reflexivity.
+Qed.
+
+(* facts about the first character of a lexeme *)
+Record head_facts (c : N) : Prop := {
+  hf_hash : (c =? 35) = false;
+  hf_ign : is_ignored_char c = false }.
+
+Lemma punct_char_facts c : In c punct_chars ->
+  (c =? 35) = false /\ (c =? 34) = false /\ is_ignored_char c = false /\ is_name_continue c = false /\
+  is_digit c = false /\ is_dot_or_ns c = false /\ (34 =? c) = false.
+Proof.
+  unfold punct_chars. cbn [In]. intros H.
+  repeat (destruct H as [<-|H]; [repeat split; reflexivity|]). destruct H.
+Qed.
+
+Lemma name_start_range c : is_name_start c = true -> (65 <= c <= 90 \/ 97 <= c <= 122 \/ c = 95).
+Proof.
+  unfold is_name_start, is_letter. intros H.
+  apply orb_true_iff in H as [H|H]; [|apply N.eqb_eq in H; lia].
+  apply orb_true_iff in H as [H|H]; apply andb_true_iff in H as [H1 H2]; apply N.leb_le in H1, H2; lia.
+Qed.
+
+Lemma digit_range c : is_digit c = true -> 48 <= c <= 57.
+Proof. unfold is_digit. intros H. apply andb_true_iff in H as [H1 H2]. apply N.leb_le in H1, H2. lia. Qed.
+
+Lemma not_in_punct c : (forall v, In v punct_chars -> c <> v) -> ~ In c punct_chars.
+Proof. intros H Hin. exact (H c Hin eq_refl). Qed.
+
+Lemma range_not_punct c : (48 <= c <= 57 \/ 65 <= c <= 90 \/ 97 <= c <= 122 \/ c = 95 \/ c = 45 \/ c = 46) ->
+  punct_kind c = None /\ (c =? 35) = false /\ (c =? 34) = false /\ is_ignored_char c = false.
+Proof.
+  intros H. split; [|split; [|split]].
+  - apply punct_kind_none. unfold punct_chars. cbn [In]. lia.
+  - apply N.eqb_neq. lia.
+  - apply N.eqb_neq. lia.
+  - unfold is_ignored_char, is_ws_ignored, LF, CR.
+    repeat match goal with |- context [?a =? ?b] => destruct (N.eqb_spec a b); [lia|] end. reflexivity.
+Qed.
+
+Lemma name_start_not_num c : is_name_start c = true -> is_digit c || (c =? 45) = false.
+Proof.
+  intros H. apply name_start_range in H. apply orb_false_iff. split.
+  - unfold is_digit. destruct (N.leb_spec 48 c), (N.leb_spec c 57); cbn; try reflexivity. lia.
+  - apply N.eqb_neq. lia.
+Qed.
+
+Lemma num_head_range c : is_digit c || (c =? 45) = true -> 48 <= c <= 57 \/ c = 45.
+Proof.
+  intros H. apply orb_true_iff in H as [H|H]; [left; apply digit_range, H|right; apply N.eqb_eq, H].
+Qed.
+
+(* what may follow a non-punctuator token in a stripped text: nothing, the separating space or a
+   one-character punctuator *)
+Definition follow_ok (r : list N) : Prop :=
+  match r with [] => True | c :: _ => c = 32 \/ In c punct_chars end.
+
+Lemma follow_ok_facts r : follow_ok r ->
+  peek_is is_name_continue r = false /\ numstop r /\ peek_is (N.eqb 34) r = false.
+Proof.
+  destruct r as [|c t]; [repeat split; reflexivity|]. cbn [follow_ok peek_is]. unfold numstop. cbn [peek_is].
+  intros [->|H]; [repeat split; reflexivity|].
+  apply punct_char_facts in H. tauto.
+Qed.
+
+(* ================================================================== *)
+(* E. what read_token returns: gap, lexeme, and the shape of the lexeme *)
+(* ================================================================== *)
+
+Lemma starts2_loc a s' r2 : a <> [] -> starts2 34 34 (a ++ s') = false ->
+  peek_is (N.eqb 34) r2 = false -> starts2 34 34 (a ++ r2) = false.
+Proof.
+  destruct a as [|x [|y a']]; [congruence| |]; intros _ H Hr.
+  - cbn [app]. destruct r2 as [|y t]; [reflexivity|]. cbn [starts2 peek_is] in *.
+    rewrite N.eqb_sym in Hr. rewrite Hr. apply andb_false_r.
+  - exact H.
+Qed.
+
+Inductive lexeme_of (tk : token) (lx s' : list N) : Prop :=
+| L_punct c : lx = [c] -> punct_kind c = Some (tkind tk) -> thasval tk = false -> tvalue tk = [] ->
+    lexeme_of tk lx s'
+| L_spread : lx = [46; 46; 46] -> tkind tk = K_SPREAD -> thasval tk = false -> tvalue tk = [] ->
+    lexeme_of tk lx s'
+| L_name c b : lx = c :: b -> is_name_start c = true -> Forall (fun x => is_name_continue x = true) b ->
+    peek_is is_name_continue s' = false ->
+    tkind tk = K_NAME -> thasval tk = true -> tvalue tk = lx -> lexeme_of tk lx s'
+| L_num fl : peek_is (fun c => is_digit c || (c =? 45)) lx = true -> numstop s' ->
+    (forall pos2 r2, numstop r2 -> read_number pos2 (lx ++ r2) = Ok ((pos2 + length lx)%nat, fl, r2)) ->
+    tkind tk = (if fl then K_FLOAT else K_INT) -> thasval tk = true -> tvalue tk = lx -> lexeme_of tk lx s'
+| L_string body : lx = 34 :: body -> body <> [] -> starts2 34 34 (body ++ s') = false ->
+    (forall fuel2 pos2 r2, (length (body ++ r2) < fuel2)%nat ->
+       read_string_loop fuel2 pos2 [] (body ++ r2) = Ok ((pos2 + length body)%nat, tvalue tk, r2)) ->
+    tkind tk = K_STRING -> thasval tk = true -> lexeme_of tk lx s'
+| L_block : tkind tk = K_BLOCK_STRING -> thasval tk = true -> in_block_range (tvalue tk) = true ->
+    lexeme_of tk lx s'
+| L_comment : tkind tk = K_COMMENT -> lexeme_of tk lx s'.
+
+Lemma read_token_ana cu s tk cu' s' : read_token cu s = Ok (tk, cu', s') ->
+  exists g lx, s = g ++ lx ++ s' /\ Forall (fun c => is_ignored_char c = true) g /\
+    tstart tk = (cpos cu + length g)%nat /\ tend tk = (tstart tk + length lx)%nat /\ cpos cu' = tend tk /\
+    (if tkind tk =? K_EOF then lx = [] /\ s' = [] else lexeme_of tk lx s').
+Proof.
+  intros H0. pose proof H0 as H. unfold read_token in H.
+  destruct (skip_ignored cu s) as [cu1 s1] eqn:Esk.
+  apply skip_ignored_spec in Esk as (g & Ag & Hg & Hp & _).
+  pose proof (adv_split _ _ _ Ag) as Es.
+  assert (Hgl : length (firstn g s) = g) by (apply firstn_length_le; destruct Ag; lia).
+  assert (W : forall lx, s1 = lx ++ s' -> tstart tk = cpos cu1 -> tend tk = (cpos cu1 + length lx)%nat ->
+              cpos cu' = tend tk ->
+              (if tkind tk =? K_EOF then lx = [] /\ s' = [] else lexeme_of tk lx s') ->
+              exists g lx, s = g ++ lx ++ s' /\ Forall (fun c => is_ignored_char c = true) g /\
+                tstart tk = (cpos cu + length g)%nat /\ tend tk = (tstart tk + length lx)%nat /\
+                cpos cu' = tend tk /\
+                (if tkind tk =? K_EOF then lx = [] /\ s' = [] else lexeme_of tk lx s')).
+  { intros lx E1 E2 E3 E4 E5. exists (firstn g s), lx. rewrite Hgl.
+    split; [rewrite <- E1; exact Es|]. split; [exact Hg|]. repeat split; try lia; assumption. }
+  destruct s1 as [|c t].
+  { inversion H; subst tk cu' s'. apply (W []); cbn; auto; lia. }
+  destruct (c =? 35) eqn:E35.
+  { destruct (comment_body t) as [b r] eqn:Ec. pose proof (comment_body_app _ _ _ Ec) as Et.
+    inversion H; subst tk cu' s'. apply (W (c :: b)); cbn [mk tstart tend cpos tkind length]; try lia.
+    - rewrite Et. reflexivity.
+    - cbn. apply L_comment. reflexivity. }
+  destruct (c =? 34) eqn:E34.
+  { apply N.eqb_eq in E34. subst c. destruct (starts2 34 34 t) eqn:Eqq.
+    - cbv zeta in H.
+      pose proof (read_block_loop_spec (S (length (skipn 2 t))) (cpos cu1 + 3) (cls cu1) [] [] (skipn 2 t)
+                    ltac:(lia)) as Hb.
+      destruct (read_block_loop (S (length (skipn 2 t))) (cpos cu1 + 3) (cls cu1) [] [] (skipn 2 t))
+        as [[[[e raw] ls'] rest]| | |]; try discriminate.
+      destruct Hb as (k & -> & Ak & Hk). inversion H. subst tk cu' s'.
+      destruct t as [|x [|y t2]]; try discriminate. cbn [skipn] in *.
+      apply (W (34 :: x :: y :: firstn k t2)).
+      + rewrite (adv_split _ _ _ Ak) at 1. reflexivity.
+      + reflexivity.
+      + cbn [mk tend length]. rewrite firstn_length_le by (destruct Ak; lia). lia.
+      + reflexivity.
+      + cbn [mk tkind]. change (K_BLOCK_STRING =? K_EOF) with false. cbv iota.
+        apply L_block; [reflexivity|reflexivity|].
+        eapply block_token_in_range; [exact H0|reflexivity].
+    - destruct (read_string_loop (S (length t)) (S (cpos cu1)) [] t) as [[[e v] rest]| | |] eqn:Er; try discriminate.
+      apply rsl_loc in Er as (a & -> & -> & L). inversion H; subst tk cu' s'.
+      assert (Hne : a <> []).
+      { intros ->. specialize (L 1%nat 0%nat [] ltac:(cbn; lia)). cbn in L. discriminate. }
+      apply (W (34 :: a)); cbn [mk tstart tend cpos tkind length]; try lia; [reflexivity|].
+      cbn. eapply L_string; eauto. }
+  destruct (punct_kind c) as [k|] eqn:Epk.
+  { inversion H; subst tk cu' s'. apply (W [c]); cbn [mk tstart tend cpos tkind length]; try lia; [reflexivity|].
+    destruct (punct_kind_some _ _ Epk) as (_ & _ & _ & -> & _). eapply L_punct; eauto. }
+  destruct (is_digit c || (c =? 45)) eqn:Ed.
+  { destruct (read_number (cpos cu1) (c :: t)) as [[[e fl] rest]| | |] eqn:En; try discriminate.
+    apply read_number_loc in En as (a & Ea & -> & Hhd & Hstop & L).
+    replace (firstn (cpos cu1 + length a - cpos cu1) (c :: t)) with a in H
+      by (rewrite Ea; replace (cpos cu1 + length a - cpos cu1)%nat with (length a) by lia;
+          rewrite firstn_app_length; reflexivity).
+    inversion H; subst tk cu' s'.
+    apply (W a); cbn [mk tstart tend cpos tkind length]; try lia; [exact Ea|].
+    replace (_ =? K_EOF) with false by (destruct fl; reflexivity).
+    eapply L_num; eauto. }
+  destruct (is_name_start c) eqn:Ens.
+  { destruct (span is_name_continue t) as [b r] eqn:Esp. apply span_spec in Esp as (-> & Hb & Hr).
+    inversion H; subst tk cu' s'. apply (W (c :: b)); cbn [mk tstart tend cpos tkind length]; try lia; [reflexivity|].
+    cbn. eapply L_name; eauto. }
+  destruct (c =? 46) eqn:E46; [|discriminate]. apply N.eqb_eq in E46. subst c.
+  destruct (starts2 46 46 t) eqn:Edd; [|discriminate].
+  destruct t as [|x [|y t2]]; try discriminate. cbn [starts2] in Edd. apply andb_true_iff in Edd as [E1 E2].
+  apply N.eqb_eq in E1, E2. subst x y. inversion H; subst tk cu' s'.
+  apply (W [46; 46; 46]); cbn [mk tstart tend cpos tkind length]; try lia; [reflexivity|].
+  cbn. apply L_spread; reflexivity.
+Qed.
+
+(* ================================================================== *)
+(* F. re-lexing one token of the stripped text                         *)
+(* ================================================================== *)
+
+(* the text strip emits for a token whose lexeme is lx *)
+Definition retext (tk : token) (lx : list N) : list N :=
+  if tkind tk =? K_BLOCK_STRING then print_block_string (tvalue tk) true else lx.
+
+(* reading s2 at cu2 gives a token like tk: same kind and value, after a gap of [gap]
+   characters, spanning exactly [txt], leaving [rest2] *)
+Definition relexed (tk : token) (txt : list N) (cu2 : cursor) (s2 rest2 : list N) (gap : nat) : Prop :=
+  exists tk2 cu2', read_token cu2 s2 = Ok (tk2, cu2', rest2) /\
+    tkind tk2 = tkind tk /\ tvalue tk2 = tvalue tk /\ thasval tk2 = thasval tk /\
+    tstart tk2 = (cpos cu2 + gap)%nat /\ tend tk2 = (tstart tk2 + length txt)%nat /\ cpos cu2' = tend tk2.
+
+Lemma read_token_nogap cu s : peek_is is_ignored_char s = false ->
+  read_token cu s =
+  (let p := cpos cu in
+  let adv (n : nat) := mkCur (p + n) (cline cu) (cls cu) in
+  match s with
+  | [] => Ok (mk K_EOF cu p p None, cu, [])
+  | c :: t =>
+    if c =? 35 then
+      let '(b, r) := comment_body t in
+      let e := (p + 1 + length b)%nat in
+      Ok (mk K_COMMENT cu p e (Some b), mkCur e (cline cu) (cls cu), r)
+    else if c =? 34 then
+      if starts2 34 34 t then
+        let r := skipn 2 t in
+        match read_block_loop (S (length r)) (p + 3) (cls cu) [] [] r with
+        | Ok (e, raw, ls', rest) =>
+          Ok (mk K_BLOCK_STRING cu p e (Some (join_lf (dedent raw))),
+              mkCur e (cline cu + (length raw - 1)) ls', rest)
+        | SyntaxErr q => SyntaxErr q
+        | Crash w => Crash w
+        | OutOfFuel => OutOfFuel
+        end
+      else
+        match read_string_loop (S (length t)) (S p) [] t with
+        | Ok (e, v, rest) => Ok (mk K_STRING cu p e (Some v), mkCur e (cline cu) (cls cu), rest)
+        | SyntaxErr q => SyntaxErr q
+        | Crash w => Crash w
+        | OutOfFuel => OutOfFuel
+        end
+    else match punct_kind c with
+    | Some k => Ok (mk k cu p (S p) None, adv 1%nat, t)
+    | None =>
+      if is_digit c || (c =? 45) then
+        match read_number p s with
+        | Ok (e, fl, rest) =>
+          Ok (mk (if fl then K_FLOAT else K_INT) cu p e (Some (firstn (e - p) s)),
+              mkCur e (cline cu) (cls cu), rest)
+        | SyntaxErr q => SyntaxErr q
+        | Crash w => Crash w
+        | OutOfFuel => OutOfFuel
+        end
+      else if is_name_start c then
+        let '(b, r) := span is_name_continue t in
+        let e := (p + 1 + length b)%nat in
+        Ok (mk K_NAME cu p e (Some (c :: b)), mkCur e (cline cu) (cls cu), r)
+      else if c =? 46 then
+        if starts2 46 46 t then Ok (mk K_SPREAD cu p (p + 3) None, adv 3%nat, skipn 2 t)
+        else SyntaxErr p
+      else SyntaxErr p
+    end
+  end).
+Proof. intros H. unfold read_token. rewrite (skip_ignored_stop cu s H). reflexivity. Qed.
+
+Lemma relex0 tk lx s' : lexeme_of tk lx s' -> (tkind tk =? K_COMMENT) = false ->
+  (tkind tk = K_BLOCK_STRING -> scalars (tvalue tk)) ->
+  forall cu2 rest2, (is_punct_kind (tkind tk) = true \/ follow_ok rest2) ->
+  relexed tk (retext tk lx) cu2 (retext tk lx ++ rest2) rest2 0.
+Proof.
+  intros HL Hnc Hsc cu2 rest2 Hfol. unfold relexed, retext.
+  assert (Hnp : is_punct_kind (tkind tk) = false -> follow_ok rest2).
+  { intros E. destruct Hfol as [F|F]; [congruence|exact F]. }
+  destruct HL as [c -> Hpk Hhv Hv | -> Hk Hhv Hv | c b -> Hns Hb Hs' Hk Hhv Hv
+                 | fl Hhd Hs' L Hk Hhv Hv | body -> Hne Hst L Hk Hhv | Hk Hhv Hr | Hk].
+  - (* punctuator *)
+    destruct (punct_kind_some _ _ Hpk) as (Hin & _ & _ & _ & _ & Hnb). rewrite Hnb.
+    destruct (punct_char_facts _ Hin) as (E35 & E34 & Eig & _).
+    cbn [app]. rewrite read_token_nogap by exact Eig. cbv zeta. rewrite E35, E34, Hpk.
+    eexists. eexists. split; [reflexivity|]. cbn [mk tkind tvalue thasval tstart tend cpos length].
+    rewrite Hhv, Hv. repeat split; lia.
+  - (* spread *)
+    rewrite Hk. change (K_SPREAD =? K_BLOCK_STRING) with false. cbv iota. cbn [app].
+    rewrite read_token_nogap by reflexivity. cbv zeta.
+    change (46 =? 35) with false. change (46 =? 34) with false. change (punct_kind 46) with (@None N).
+    change (is_digit 46 || (46 =? 45)) with false. change (is_name_start 46) with false.
+    change (46 =? 46) with true. cbv iota. change (starts2 46 46 (46 :: 46 :: rest2)) with true. cbv iota.
+    eexists. eexists. split; [reflexivity|]. cbn [mk tkind tvalue thasval tstart tend cpos length skipn].
+    rewrite Hhv, Hv. repeat split; lia.
+  - (* name *)
+    rewrite Hk. change (K_NAME =? K_BLOCK_STRING) with false. cbv iota.
+    assert (F : follow_ok rest2) by (apply Hnp; rewrite Hk; reflexivity).
+    destruct (follow_ok_facts _ F) as (Fn & _ & _).
+    destruct (range_not_punct c) as (Epk & E35 & E34 & Eig).
+    { apply name_start_range in Hns. lia. }
+    cbn [app]. rewrite read_token_nogap by exact Eig. cbv zeta.
+    rewrite E35, E34, Epk, (name_start_not_num _ Hns), Hns. rewrite (span_app _ _ _ Hb Fn).
+    eexists. eexists. split; [reflexivity|]. cbn [mk tkind tvalue thasval tstart tend cpos length].
+    rewrite Hhv, Hv. repeat split; lia.
+  - (* number *)
+    assert (Hkb : (tkind tk =? K_BLOCK_STRING) = false) by (rewrite Hk; destruct fl; reflexivity).
+    rewrite Hkb.
+    assert (F : follow_ok rest2) by (apply Hnp; rewrite Hk; destruct fl; reflexivity).
+    destruct (follow_ok_facts _ F) as (_ & Fs & _).
+    destruct lx as [|c t]; [discriminate|]. cbn [peek_is] in Hhd.
+    destruct (range_not_punct c) as (Epk & E35 & E34 & Eig).
+    { apply num_head_range in Hhd. lia. }
+    cbn [app]. rewrite read_token_nogap by exact Eig. cbv zeta.
+    rewrite E35, E34, Epk, Hhd. change (c :: t ++ rest2) with ((c :: t) ++ rest2).
+    rewrite (L (cpos cu2) rest2 Fs).
+    eexists. eexists. split; [reflexivity|]. cbn [mk tkind tvalue thasval tstart tend cpos].
+    replace (cpos cu2 + length (c :: t) - cpos cu2)%nat with (length (c :: t)) by lia.
+    rewrite firstn_app_length. rewrite Hhv, Hv, Hk. repeat split; lia.
+  - (* quoted string *)
+    rewrite Hk. change (K_STRING =? K_BLOCK_STRING) with false. cbv iota.
+    assert (F : follow_ok rest2) by (apply Hnp; rewrite Hk; reflexivity).
+    destruct (follow_ok_facts _ F) as (_ & _ & Fq).
+    cbn [app]. rewrite read_token_nogap by reflexivity. cbv zeta.
+    change (34 =? 35) with false. change (34 =? 34) with true. cbv iota.
+    rewrite (starts2_loc _ _ _ Hne Hst Fq). rewrite L by lia.
+    eexists. eexists. split; [reflexivity|]. cbn [mk tkind tvalue thasval tstart tend cpos length].
+    rewrite Hhv, Hk. repeat split; lia.
+  - (* block string *)
+    rewrite Hk. change (K_BLOCK_STRING =? K_BLOCK_STRING) with true. cbv iota.
+    destruct (block_roundtrip_main (tvalue tk) true [] cu2 rest2 Hr (Hsc Hk) (Forall_nil _))
+      as (tk2 & cu2' & E & Ek & Eh & Ev & Es & Ee & Ec).
+    cbn [indent_all] in E, Ee. exists tk2, cu2'. rewrite Hk, Hhv. repeat split; auto; lia.
+  - rewrite Hk in Hnc. discriminate.
 Qed.
